@@ -83,7 +83,9 @@ def run(spec, seed, attack=None, flood=None, probes=None, reconnect=None):
                     return [0.0]
                 k = seen.get((tx.src, tx.data), 0); seen[(tx.src, tx.data)] = k + 1
                 h = zlib.crc32(tx.data + bytes([k & 0xFF]) + tx.src[0].encode() + tx.src[1].to_bytes(2, "little") + seed.to_bytes(8, "little"))
-                if h % 100 < 4 * spec.jitter:
+                if h % 100 < 4 * spec.jitter and k < 1:
+                    # (only a datagram's first transmission is ever lost: a request, then its acknowledgement, then the request again ... lost
+                    # four times in a row would end the connection by the configured loss alone - in the reference run too)
                     return []
                 return [quant(0.004 + 0.009 * ((h >> 8) % (2 + 3 * spec.jitter)))]
             sim.net.fate = fate
